@@ -2621,6 +2621,7 @@ func (c *Ctx) r1019() {
 			// Peek(<variable>) bound to a variable, and the variable incremented in the loop
 			var idx types.Object
 			var tok types.Object
+			tokName := "" // as spelled in the source that is analysed (the keys of the path search are source text)
 			ast.Inspect(fs.Body, func(w ast.Node) bool {
 				if inner, ok := w.(*ast.ForStmt); ok && inner != fs {
 					return false
@@ -2640,6 +2641,7 @@ func (c *Ctx) r1019() {
 						if tok == nil {
 							tok = info.Uses[lid]
 						}
+						tokName = lid.Name
 					}
 				}
 				return true
@@ -2745,7 +2747,7 @@ func (c *Ctx) r1019() {
 			if head != nil {
 				for _, k := range kinds {
 					k = strings.TrimSpace(k)
-					assume := map[string]bool{c.P.NameOf(tok) + ".TokenType == " + k: true}
+					assume := map[string]bool{tokName + ".TokenType == " + k: true}
 					p := g.Path(flow.Search{From: peeks, Goal: func(q *flow.Node) bool {
 						for _, x := range inLoop {
 							if x == q {
